@@ -122,17 +122,33 @@ static int h_ledger_find (void *p) {
     if (h_ledger[i].p == p) return i;
   return -1;
 }
+/* H_POOL_HOOK (seq, n): optional harness function; when it returns non-NULL for the seq-th
+   allocation, that (statically TYPED) array is used as the block.  CBMC mode only: arrays of
+   4-byte or struct elements indexed symbolically are far cheaper when the object has the element
+   type than when they live in generic 8-byte cells. */
+static int h_alloc_seq;
 static void *h_slot_malloc (size_t n, void *ud) {
   (void) ud;
-  H_ASSUME (n <= H_SLOT_CAP);
+  void *p = NULL;
   H_ASSUME (h_ledger_n < H_SLOT_MAX);
-#if defined(REPLAY) || defined(H_SLOT_MALLOC)
-  void *p = malloc (H_SLOT_CAP);
+#if defined(REPLAY)
+  p = malloc (n ? n : 1); /* exact size natively, so that ASan sees overflows */
   H_ASSUME (p != NULL);
 #else
-  uint64_t *p = malloc (sizeof (uint64_t) * (H_SLOT_CAP / 8)); /* typed 8-byte cells: word accesses with symbolic index stay cheap */
-  H_ASSUME (p != NULL);
+  H_ASSUME (n <= H_SLOT_CAP);
+#ifdef H_POOL_HOOK
+  p = H_POOL_HOOK (h_alloc_seq, n);
 #endif
+  if (p == NULL) {
+#ifdef H_SLOT_MALLOC
+    p = malloc (H_SLOT_CAP);
+#else
+    p = malloc (sizeof (uint64_t) * (H_SLOT_CAP / 8)); /* typed 8-byte cells */
+#endif
+    H_ASSUME (p != NULL);
+  }
+#endif
+  h_alloc_seq++;
   h_ledger[h_ledger_n].p = p; h_ledger[h_ledger_n].req = n; h_ledger[h_ledger_n].live = 1;
   h_ledger_n++;
   return p;
@@ -140,15 +156,21 @@ static void *h_slot_malloc (size_t n, void *ud) {
 static void *h_slot_calloc (size_t a, size_t b, void *ud) {
   H_ASSUME (a <= H_SLOT_CAP && b <= H_SLOT_CAP);
   void *p = h_slot_malloc (a * b, ud);
-  memset (p, 0, H_SLOT_CAP);
+  memset (p, 0, a * b);
   return p;
 }
 static void *h_slot_realloc (void *p, size_t old, size_t n, void *ud) {
   (void) ud;
   if (p == NULL) return h_slot_malloc (n, ud);
-  H_ASSUME (n <= H_SLOT_CAP);
   int i = h_ledger_find (p);
   if (i < 0 || !h_ledger[i].live || h_ledger[i].req != old) h_alloc_errors++;
+#if defined(REPLAY)
+  p = realloc (p, n ? n : 1);
+  H_ASSUME (p != NULL);
+  if (i >= 0) h_ledger[i].p = p;
+#else
+  H_ASSUME (n <= H_SLOT_CAP);
+#endif
   if (i >= 0) h_ledger[i].req = n;
   return p;
 }
@@ -159,7 +181,7 @@ static void h_slot_free (void *p, void *ud) {
   if (i < 0 || !h_ledger[i].live) h_alloc_errors++;
   if (i >= 0) h_ledger[i].live = 0;
 #ifdef REPLAY
-  free (p);
+  if (i >= 0) free (p);
 #endif
 }
 static void h_ledger_set (void *p, size_t n) { int i = h_ledger_find (p); if (i >= 0) h_ledger[i].req = n; }
